@@ -1,14 +1,15 @@
 #!/usr/bin/env bash
-# tools/lab.sh [sync]   a "lab" for trying seeded changes without touching /repo: /tmp/lab/repo = detached worktree of /repo's HEAD,
-# /tmp/lab/verif = copy of /verif (without build output) whose harness depends on /tmp/lab/repo. First call builds everything
-# (./check setup in the lab); later calls only re-sync the sources. Use: SEED_REPO=/tmp/lab/repo SEED_VERIF=/tmp/lab/verif tools/seed_try.sh ...
-# Nothing in the lab is evidence; remove it with: git -C /repo worktree remove --force /tmp/lab/repo; rm -rf /tmp/lab
+# tools/lab.sh [sync]   a "lab" for trying seeded changes without touching /repo: ${LAB}/repo = detached worktree of /repo's HEAD,
+# ${LAB}/verif = copy of /verif (without build output) whose harness depends on ${LAB}/repo. First call builds everything
+# (./check setup in the lab); later calls only re-sync the sources. Use: SEED_REPO=${LAB}/repo SEED_VERIF=${LAB}/verif tools/seed_try.sh ...
+# Nothing in the lab is evidence; remove it with: git -C /repo worktree remove --force ${LAB}/repo; rm -rf ${LAB}
 set -u
-mkdir -p /tmp/lab
-if [ ! -d /tmp/lab/repo ]; then git -C /repo worktree add --detach /tmp/lab/repo HEAD >/dev/null 2>&1 || exit 2; fi
-git -C /tmp/lab/repo checkout -q --detach "$(git -C /repo rev-parse HEAD)"; git -C /tmp/lab/repo checkout -- .
-rsync -a --delete --exclude target --exclude evidence --exclude replay --exclude soak_out --exclude sweep_out --exclude .git /verif/ /tmp/lab/verif/
-mkdir -p /tmp/lab/verif/evidence
-sed -i 's#path = "/repo"#path = "/tmp/lab/repo"#' /tmp/lab/verif/harness/*/Cargo.toml
-grep -rl '"/repo' /tmp/lab/verif/tools /tmp/lab/verif/check 2>/dev/null | head
-if [ "${1:-}" != "sync" ] || [ ! -d /tmp/lab/verif/harness/target ]; then (cd /tmp/lab/verif && ./check setup >/tmp/lab/setup.log 2>&1; echo "lab setup exit $?"); fi
+LAB="${LAB:-/tmp/lab}"
+mkdir -p ${LAB}
+if [ ! -d ${LAB}/repo ]; then git -C /repo worktree add --detach ${LAB}/repo HEAD >/dev/null 2>&1 || exit 2; fi
+git -C ${LAB}/repo checkout -q --detach "$(git -C /repo rev-parse HEAD)"; git -C ${LAB}/repo checkout -- .
+rsync -a --delete --exclude target --exclude evidence --exclude replay --exclude soak_out --exclude sweep_out --exclude .git /verif/ ${LAB}/verif/
+mkdir -p ${LAB}/verif/evidence
+sed -i 's#path = "/repo"#path = "${LAB}/repo"#' ${LAB}/verif/harness/*/Cargo.toml
+grep -rl '"/repo' ${LAB}/verif/tools ${LAB}/verif/check 2>/dev/null | head
+if [ "${1:-}" != "sync" ] || [ ! -d ${LAB}/verif/harness/target ]; then (cd ${LAB}/verif && ./check setup >${LAB}/setup.log 2>&1; echo "lab setup exit $?"); fi
